@@ -4,4 +4,5 @@ import ButlerModel.Props.C11
 import ButlerModel.Props.C12
 import ButlerModel.Props.C14
 import ButlerModel.Props.C15
+import ButlerModel.Props.C16
 import ButlerModel.Props.C17
